@@ -521,6 +521,8 @@ class LinProg:
                 o.end_trial(tid, oc["status"])
             elif oc["form"] == "legacy-kw":
                 o.end_trial(trial_id=tid, status=oc["status"])
+            elif oc["form"] == "legacy-bad":
+                o.end_trial(trial_id=tid)        # an old-style call that forgets the status: a TypeError for the caller, nothing else
             else:
                 c = trial_module.Trial(hyperparameters=self.tr.hyperparameters.copy(), trial_id=tid, status=oc["status"])
                 if oc["form"] == "declare":
@@ -555,6 +557,22 @@ def _lin_state(o):
     return st
 
 
+def _lin_invariant(o):
+    """what every state BETWEEN calls of a sequential execution satisfies (C01's lifecycle facts); evaluated whenever no thread
+    holds the oracle's lock: a call that has not taken the lock yet must not have left a trace"""
+    ongoing = {v.trial_id for v in dict.values(o.ongoing_trials)}
+    ended = [x for x in list.__iter__(o.end_order)]
+    for tid in dict.keys(o.trials):
+        tr = dict.get(o.trials, tid)
+        if tid in ongoing and tr.status != "RUNNING":
+            return f"trial {tid} is held by a worker (ongoing) but its status is {tr.status}"
+        if tr.status == "COMPLETED" and tr.score is None:
+            return f"trial {tid} is COMPLETED without a score"
+        if tr.status in ("COMPLETED", "FAILED") and tid not in ended:
+            return f"trial {tid} is {tr.status} but not in the end order"
+    return None
+
+
 def _lin_sequential(kind, oseed, plans, order):
     """the same programs, one whole call at a time in the given order of threads: (threads not yet done, results, state);
     None when the order asks a thread for a call it does not make"""
@@ -583,7 +601,7 @@ def lin_scenario(sseed):
         plans[t] = []
         for _ in range((R.randint(2, 3) if kind == "hyperband" else R.randint(1, 2)) if n == 2 else 1):
             status = R.choice(["COMPLETED"] * 6 + ["INVALID", "FAILED"])
-            plans[t].append(dict(status=status, score=float(R.randint(0, 5)), form=R.choice(["copy", "declare", "declare", "legacy", "legacy-kw", "copy"])))
+            plans[t].append(dict(status=status, score=float(R.randint(0, 5)), form=R.choice(["copy", "declare", "declare", "legacy", "legacy-kw", "copy", "legacy-bad"])))
     p = Patch()
     sched, om = p.sched, p.om
     hist = collections.Counter()
@@ -645,6 +663,7 @@ def lin_scenario(sseed):
                         first = False
                         sched.grant(u)
                 steps = stuck = 0
+                touched = set()
                 while len(sched.finished) < n and steps < 20000:
                     steps += 1
                     alive = [t for t in range(n) if t not in sched.finished]
@@ -656,7 +675,16 @@ def lin_scenario(sseed):
                             raise Violation("C17", f"{kind} oracle, calls from {n} threads: no thread can make progress", {"tag": "wedge"})
                         continue
                     stuck = 0
-                    if label == "touch" or (label in ("lock-acquire", "owner-read") and R.random() < 0.3):
+                    if all(l.owner is None for l in p.shim.locks):
+                        bad = _lin_invariant(o)
+                        if bad:
+                            raise Violation("C17", f"{kind} oracle, {n} threads: while no thread holds the oracle's lock, {bad} - a state no sequential order of the calls "
+                                                   f"passes through (a call has changed shared state before taking the lock)", {"tag": "state-between-calls", "kind": kind})
+                    if label == "call":
+                        touched.discard(t)
+                    if label == "touch":
+                        touched.add(t)          # this call has reached into shared state without the lock: watch it until it is over
+                    if label == "touch" or (label in ("lock-acquire", "owner-read") and (t in touched or R.random() < 0.3)):
                         # the adversary: before this thread goes on, another one runs a whole call - a request for a trial if there is one
                         others = [u for u in alive if u != t]
                         asking = [u for u in others if u in progs and progs[u].phase == "create" and sched.waiting[u][0] == "call"]
